@@ -143,6 +143,11 @@ def gen_ctor(rng, n):
         dim = rng.choice([1, 2, 2, 2, 3, 3, 4, 5])
         l = gen_letter(rng, dim)
         inp = {"dim": dim, "letter": l, "shape": []}
+        if l["kind"] == "reflection" and dim >= 2 and rng.random() < 0.4:
+            # an array of normals gives an array of hyperplanes (never exactly dim+1 of them: that shape is read as one hyperplane's data)
+            shape = rng.choice([s for s in ([2], [3], [1], [2, 2], [4]) if s != [dim + 1]])
+            inp["shape"] = shape
+            inp["batch"] = [L.encV(L.spacelike_vec(rng, dim)) for _ in range(int(np.prod(shape)))]
         if l["kind"] == "sl2" and rng.random() < 0.5:
             shape = rng.choice([[2], [3], [1], [2, 2]])
             cnt = int(np.prod(shape))
@@ -153,6 +158,10 @@ def gen_ctor(rng, n):
 
 def run_ctor(inp):
     dim, l = inp["dim"], inp["letter"]
+    if inp["shape"] and l["kind"] == "reflection":
+        d = np.array([Q.decf(a) for a in inp["batch"]]).reshape(tuple(inp["shape"]) + (dim + 1,))
+        iso = H.Hyperplane(d).reflection_across()
+        return {"mats": L.units(iso.matrix, 2).tolist(), "shape": list(iso.matrix.shape)}
     if inp["shape"]:
         A = np.array([Q.decf(a) for a in inp["batch"]]).reshape(tuple(inp["shape"]) + (2, 2))
         iso = H.sl2_iso(A)
@@ -162,6 +171,8 @@ def run_ctor(inp):
 
 
 def lean_ctor(inp, obs):
+    if inp["shape"] and inp["letter"]["kind"] == "reflection":
+        return [{"op": "c02.refl_closed", "d": a} for a in inp["batch"]]
     if inp["shape"]:
         return [{"op": "c02.sl2", "A": a} for a in inp["batch"]]
     return [letter_op(inp["letter"], inp["dim"])]
